@@ -1,7 +1,7 @@
 CONSTANTS
   ItemFirst = TRUE
-  LocAfterValue = FALSE
-  CasFailReturnsInstalled = FALSE
+  LocAfterValue = TRUE
+  CasFailReturnsInstalled = TRUE
 SPECIFICATION Spec
 INVARIANTS CopyKeepsItem SizeIsReal NeverLost LoadsSeeWrittenBytes ValueReadGetsValue
 CHECK_DEADLOCK FALSE
